@@ -68,7 +68,7 @@ def finish(a, sd, res):
     out = HERE / "seeded" / a.seed_id
     out.mkdir(parents=True, exist_ok=True)
     for f in ("patch.diff", "demo.py"):
-        if (sd / f).exists():
+        if (sd / f).exists() and (sd / f).resolve() != (out / f).resolve():
             shutil.copy(sd / f, out / f)
     prev = {}
     if (out / "meta.json").exists():
